@@ -674,3 +674,85 @@ func RunSingle(c Check, o Options) int {
 }
 
 func EnvSeed() uint64 { return envSeed() }
+
+// RaceReport is one deduplicated race detector report found in the worker race logs.
+type RaceReport struct {
+	Key   string // sorted pair of the innermost code-under-test functions of the two accesses
+	Text  string // first report of this key
+	Count int
+}
+
+// ParseRaceLogs reads the race detector logs the workers wrote (GORACE log_path=<scratch>/race) and
+// deduplicates the reports by the pair of innermost frames inside modulePrefix (line numbers stripped).
+// Reports without any frame inside modulePrefix get the key "harness-only".
+func ParseRaceLogs(scratch, modulePrefix string) []RaceReport {
+	files, _ := filepath.Glob(filepath.Join(scratch, "race.*"))
+	sort.Strings(files)
+	byKey := map[string]*RaceReport{}
+	var order []string
+	for _, f := range files {
+		b, err := os.ReadFile(f)
+		if err != nil {
+			continue
+		}
+		for _, blk := range strings.Split(string(b), "==================") {
+			if !strings.Contains(blk, "WARNING: DATA RACE") {
+				continue
+			}
+			key := raceKey(blk, modulePrefix)
+			if r, ok := byKey[key]; ok {
+				r.Count++
+				continue
+			}
+			byKey[key] = &RaceReport{Key: key, Text: strings.TrimSpace(blk), Count: 1}
+			order = append(order, key)
+		}
+	}
+	sort.Strings(order)
+	out := []RaceReport{}
+	for _, k := range order {
+		out = append(out, *byKey[k])
+	}
+	return out
+}
+
+func raceKey(blk, modulePrefix string) string {
+	// the report has sections separated by empty lines; the first two are the conflicting accesses
+	secs := strings.Split(strings.TrimSpace(blk), "\n\n")
+	var fns []string
+	for _, sec := range secs {
+		if len(fns) == 2 {
+			break
+		}
+		head := strings.TrimSpace(sec)
+		if !(strings.Contains(head, " at 0x") && strings.Contains(head, "by ")) {
+			continue
+		}
+		fn := "?"
+		for _, line := range strings.Split(sec, "\n") {
+			l := strings.TrimSpace(line)
+			if strings.HasPrefix(l, modulePrefix) && !strings.Contains(l, "/verifhook.") {
+				if i := strings.LastIndex(l, "("); i > 0 {
+					l = l[:i]
+				}
+				fn = strings.TrimPrefix(l, modulePrefix)
+				break
+			}
+		}
+		fns = append(fns, fn)
+	}
+	if len(fns) == 0 {
+		return "unparsed"
+	}
+	all := true
+	for _, f := range fns {
+		if f != "?" {
+			all = false
+		}
+	}
+	if all {
+		return "harness-only"
+	}
+	sort.Strings(fns)
+	return strings.Join(fns, "~")
+}
